@@ -370,6 +370,10 @@ def judge(ctx: core.Ctx, case: dict[str, Any]) -> None:
 # ------------------------------------------------------------------------------ workload
 
 FRAGMENTS = [
+    # malformed block tags interleaved with well-formed open ones (in a tolerant mode the parser reports, recovers and goes on: the nesting
+    # limit must keep counting correctly through the recoveries)
+    "{% if %}{% endif %}{% if a %}x", "{% for %}{% endfor %}{% for i in a %}", "{% if a %}{% nosuch %}", "{% case %}{% endcase %}{% case a %}{% when 1 %}", "{% if a %}{% if %}",
+    "{% unless a %}{% else junk %}{% unless b %}", "{% capture %}{% endcapture %}{% capture c %}", "{% if a %}{% endfor %}", "{% tablerow %}{% endtablerow %}{% tablerow i in a %}",
     "{% case x %}", "{% case %}", "{% case x %}{% when", "{% when 1 %}", "{% if", "{% if a %}", "{% if a %}{% else %}", "{% elsif a %}", "{{ a | ", "{{ a | f: ", "{% for i in (1..", "{% for i in xs %}",
     "{% liquid\nif a\n", "{% liquid\ncase x\n", "{% liquid\nfor i in xs\n", "{%", "{{", "{% raw %}", "{% comment %}", "{% endif %}", "{% else %}", "((((", "{{ a[b[c[d", "{% if a and b or c and ",
     "{{ 'abc", "{% assign x = 'a", "{% unless a %}{% elsif", "{% capture x %}", "{% tablerow i in xs cols:", "{% doc %}", "{# ", "{% # ", "{% macro 'm' %}", "{% block b %}", "{% extends 'x' %}",
